@@ -13,6 +13,7 @@ void gstuff_autorecv_setbuf_v1(struct gstuff_autorecv_v1 *autom,
 {
     sline_init(&autom->line, buf, len);
     gstuff_autorecv_reset_v1(autom);
+    autom->state = 3; // hunt for the first start marker
 }
 
 int gstuff_autorecv_newchar_v1(struct gstuff_autorecv_v1 *autom, char c)
@@ -73,20 +74,31 @@ int gstuff_autorecv_newchar_v1(struct gstuff_autorecv_v1 *autom, char c)
         case GSTUFF_STUB_STUB_V1:
             c = GSTUFF_STUB_V1;
             break;
+        case GSTUFF_START_V1:
+            // Невалидный пакет, но стартовый символ начинает новый.
+            sts = GSTUFF_DATA_ERROR_V1;
+            goto __finish__;
         default:
             // Невалидный пакет.
             sts = GSTUFF_DATA_ERROR_V1;
-            goto __finish__;
+            goto __finish_hunt__;
         }
 
         goto __putchar__;
+
+    case 3:
+        // После ошибки внутри пакета (и до первого пакета) ждём стартовый
+        // символ, остаток испорченного пакета отбрасывается.
+        if (c == GSTUFF_START_V1)
+            autom->state = 0;
+        goto __continue__;
     }
 
 __putchar__:
     if (!sline_putchar(&autom->line, c))
     {
         sts = GSTUFF_OVERFLOW_V1;
-        goto __finish__;
+        goto __finish_hunt__;
     }
     igris_strmcrc8(&autom->crc, c);
     autom->state = 1;
@@ -97,5 +109,9 @@ __continue__:
 
 __finish__:
     autom->state = 0;
+    return sts;
+
+__finish_hunt__:
+    autom->state = 3;
     return sts;
 }
